@@ -746,11 +746,15 @@ func sameRootCell(bound, mroot ssa.Value) bool {
 // expiredWhenTrue: for recognised comparison forms, reports whether cond==true
 // means "the session is expired".
 func expiredWhenTrue(cond ssa.Value) (expired bool, known bool) {
+	return expiredWhenTrueF(cond, "ExpiresAt")
+}
+
+func expiredWhenTrueF(cond ssa.Value, field string) (expired bool, known bool) {
 	v, positive := stripNot(cond)
 	isExpiry := func(x ssa.Value) bool {
 		return derivesFrom(x, func(y ssa.Value) bool {
 			fv, _, ok := fieldOf(y)
-			return ok && fv.Name() == "ExpiresAt"
+			return ok && fv.Name() == field
 		})
 	}
 	isNow := func(x ssa.Value) bool {
